@@ -261,7 +261,6 @@ struct Walker {
         e.f.push_back({"points", canon_cycle(g, true)});
         e.forward_cycle = canon_cycle(g, false);
         e.tags.push_back({"element", jstr("polygon")});
-        e.tags.push_back({"vertices", jint((int64_t)g.size())});
         add_rep(e, p.repetition);
         e.props = walk_props(p.properties);
         c.elems.push_back(e);
@@ -366,7 +365,6 @@ struct Walker {
         e.f.push_back({"reflection", r.x_reflection ? "1" : "0"});
         e.tags.push_back({"element", jstr("reference")});
         e.tags.push_back({"target_kind", jstr(tk)});
-        e.tags.push_back({"target_name", jstr(target)});
         add_rep(e, r.repetition);
         e.props = walk_props(r.properties);
         c.elems.push_back(e);
@@ -438,8 +436,9 @@ inline long double max_vertex_to_boundary(const std::vector<std::pair<long doubl
 // ------------------------------------------------------------------ comparison
 struct Diff {
     std::string cls;     // failure class (fine-grained: aspect + discriminators)
-    JFields tags;
+    JFields tags;        // class-level predicates only (the engine caps output per class + tag values)
     std::string detail;
+    JFields numbers;     // per-case measurements (go into the case description, not into the tags)
 };
 struct CompareCtx {
     double circle_tolerance_grid = 0;  // writer's circle tolerance in grid steps (0: detection off)
@@ -501,12 +500,10 @@ inline void compare_pair(std::vector<Diff>& out, const std::string& cell, const 
                 bool source_round = (rmax - rmin) <= 2 * ctx.circle_tolerance_grid;
                 d.cls = source_round ? "polygon.points:circle_reloaded_outside_tolerance" : "polygon.points:non_circle_written_as_circle";
                 d.tags.push_back({"source_is_circle_within_tolerance", jbool(source_round)});
-                d.tags.push_back({"source_radial_spread_grid_steps", jnum((double)(rmax - rmin))});
-                d.tags.push_back({"source_mean_radius_grid_steps", jnum((double)(0.5 * (rmax + rmin)))});
-                d.tags.push_back({"deviation_grid_steps", jnum((double)dev)});
-                d.tags.push_back({"bound_grid_steps", jnum((double)bound)});
-                d.detail = fmt("cell %s: polygon with %zu vertices re-loaded with %zu vertices; largest vertex-to-boundary distance %.3Lf grid steps > bound %.3Lf (2*circle_tolerance + reader tolerance + 1.5)", cell.c_str(),
-                               a.raw.size(), b.raw.size(), dev, bound);
+                d.numbers = {{"source_radial_spread_grid_steps", jnum((double)(rmax - rmin))}, {"source_mean_radius_grid_steps", jnum((double)(0.5 * (rmax + rmin)))},
+                             {"deviation_grid_steps", jnum((double)dev)}, {"bound_grid_steps", jnum((double)bound)}};
+                d.detail = fmt("cell %s: polygon with %zu vertices re-loaded with %zu vertices; largest vertex-to-boundary distance %.3Lf grid steps > bound %.3Lf (2*circle_tolerance + reader tolerance + 1.5); vertex distances from the centroid of the source polygon spread over %.3Lf grid steps around %.3Lf",
+                               cell.c_str(), a.raw.size(), b.raw.size(), dev, bound, rmax - rmin, 0.5 * (rmax + rmin));
                 out.push_back(d);
                 continue;
             }
